@@ -2,6 +2,7 @@
 // (ImathColorAlgo.h).   rec_fun strata | deltas | misc <seed> <count>
 #include "vrec.h"
 #include <ImathFun.h>
+#include <ImathMath.h>
 #include <ImathRoots.h>
 #include <ImathColor.h>
 #include <ImathColorAlgo.h>
@@ -197,6 +198,8 @@ template <class T> static void helpers (uint64_t seed, int count)
         { Rec r ("fn"); r.str ("fn", "eqabs"); r.str ("t", t); r.raw ("a", jlist (std::vector<T>{a, b, tol}.data (), 3)); r.raw ("out", jv ((T) equalWithAbsError (a, b, tol))); r.emit (); }
         { Rec r ("fn"); r.str ("fn", "eqrel"); r.str ("t", t); r.raw ("a", jlist (std::vector<T>{a, b, tol}.data (), 3)); r.raw ("out", jv ((T) equalWithRelError (a, b, tol))); r.emit (); }
         { Rec r ("fn"); r.str ("fn", "abs"); r.str ("t", t); r.raw ("a", jlist (std::vector<T>{a}.data (), 1)); r.raw ("out", jv (IMATH_INTERNAL_NAMESPACE::abs (a))); r.emit (); }
+        { T xs = (k % 5 == 0) ? (T) std::ldexp ((double) a, -(int) (k % 40)) : a;         // down to far below sqrt(eps)
+          Rec r ("fn"); r.str ("fn", "sinx_over_x"); r.str ("t", t); r.raw ("a", jlist (std::vector<T>{xs, (T) std::sin (xs)}.data (), 2)); r.raw ("out", jv (sinx_over_x (xs))); r.emit (); }
         { Rec r ("fn"); r.str ("fn", "sign"); r.str ("t", t); r.raw ("a", jlist (std::vector<T>{a}.data (), 1)); r.raw ("out", jv ((T) sign (a))); r.emit (); }
     }
     // lerpfactor near the overflow guard: |m - a| against max * |b - a|
